@@ -49,7 +49,7 @@ def main():
             print("baseline build failed\n" + out[-2000:])
             return 3
         src = open(demo).read()
-        src2 = re.sub(r"/tmp/seed[234]?-c\d\d", wt, src)
+        src2 = re.sub(r"/tmp/seed[2345]?-c\d\d", wt, src)
         dpath = os.path.join(wt, "_b", "demo.c")
         open(dpath, "w").write(src2)
         cc = "cc -O1 -g -I%s/include -I%s/_b/generated/include %s %s/_b/libaws-c-common.a -lpthread -ldl -lm -o %s/_b/demo" % (wt, wt, dpath, wt, wt)
